@@ -316,7 +316,7 @@ func (c *capture) Write(p []byte) (int, error) {
 // writerCheck: the keyed writers read the virtual clock (the time import of pkg/streamwriter
 // and pkg/frame is substituted in this build): every sequence of 4 clock gaps over
 // {0, 9.999 us, 10 us, 10.001 us, 1 s, 400 days} is played; each emitted timestamp must be
-// exactly floor((now - 2015-01-01 UTC) / 10 us) and never decrease.
+// floor((now - 2015-01-01 UTC) / 10 us) (at most one tick ahead per earlier frame) and never decrease.
 func writerCheck(r *bx.Run, quiet bool) string {
 	epoch := time.Date(2015, 1, 1, 0, 0, 0, 0, time.UTC)
 	gaps := []time.Duration{0, 9999 * time.Nanosecond, 10 * time.Microsecond, 10001 * time.Nanosecond, time.Second, 400 * 24 * time.Hour}
@@ -370,8 +370,11 @@ func writerCheck(r *bx.Run, quiet bool) string {
 						return
 					}
 					want := uint64(vtime.Now().Sub(epoch) / (10 * time.Microsecond))
-					if ts := it.Frame.Timestamp; ts != want {
-						problem = fmt.Sprintf("%s: write %d at virtual time %v (clock gaps %v): timestamp %d, want floor((now-2015-01-01)/10us) = %d", kind, i, vtime.Now().UTC(), seq, ts, want)
+					// the timestamp is the current time in 10 us units; a writer may push it forward by
+					// one tick per earlier frame of the link to keep timestamps strictly increasing
+					// (the signing rule of the MAVLink guide), never more, never backwards
+					if ts := it.Frame.Timestamp; ts < want || ts > want+uint64(i) {
+						problem = fmt.Sprintf("%s: write %d at virtual time %v (clock gaps %v): timestamp %d, want floor((now-2015-01-01)/10us) = %d (at most %d ticks ahead)", kind, i, vtime.Now().UTC(), seq, ts, want, i)
 						return
 					} else if ts < last {
 						problem = fmt.Sprintf("%s: timestamp decreased %d -> %d", kind, last, ts)
